@@ -157,7 +157,11 @@ func zzC18(nSettings int, small bool) {
 			ObjectMeta: metav1.ObjectMeta{Name: l, Namespace: "ns", CreationTimestamp: metav1.NewTime(nondet.TimeSec(l+".created", 0, zzCreatedMax(nSettings, small)))},
 			Spec:       datadoghqv1alpha1.ExtendedDaemonsetSettingSpec{NodeSelector: sels[j].selector()},
 		}
+		// (settings of a namespace compete for a node whichever ExtendedDaemonSet they refer to: "bar" is another one)
 		refs := []string{"nil", "empty", "foo"}
+		if j == 1 {
+			refs = []string{"nil", "empty", "foo", "bar"} // (only the second setting may refer to the other one: enough for a mixed pair)
+		}
 		if small {
 			refs = []string{"nil", "foo"}
 		}
@@ -166,6 +170,9 @@ func zzC18(nSettings int, small bool) {
 			s.Spec.Reference = &autoscalingv1.CrossVersionObjectReference{Kind: "ExtendedDaemonset"}
 		case "foo":
 			s.Spec.Reference = &autoscalingv1.CrossVersionObjectReference{Kind: "ExtendedDaemonset", Name: "foo"}
+			hasRef[j] = true
+		case "bar":
+			s.Spec.Reference = &autoscalingv1.CrossVersionObjectReference{Kind: "ExtendedDaemonset", Name: "bar"}
 			hasRef[j] = true
 		}
 		// what an earlier reconcile left in the status of the first setting (a conflict or an error whose
